@@ -102,6 +102,7 @@ def floors(tier):
         "gen:setuse": 2,
         "opt:--lcd-timeout": 5,
         "elements_cut_short_at_once": 1,
+        "typed_rows_sequences": 12 if q else 40,
         "revisit_after_other": 50 if q else 700,
         "fresh_determinism_checked": 5,
         "set:models": 8 if q else 15,
@@ -500,6 +501,21 @@ def run_shard(spec, R):
             if s == 0 and spec["shard"] < 2:
                 R.sample({"sequence_of_requests": [[pool[i]["arch"], os.path.basename(pool[i]["kernel"] or "generated:" + "|".join(pool[i]["classes"])),
                                                     " ".join(pool[i]["opts"])] for i in seq][:8], "length": len(seq)})
+        # one fixed-shape sequence per shard: probe kernel (composed loads), a kernel with read-modify-write and store forms composed
+        # from register forms, the probe again - all on one model with register-typed load/store table rows (what one composed
+        # instruction leaves behind in the model's tables would show in the next)
+        arch = ["spr", "zen3", "zen4", "icx", "zen1", "zen2"][spec["shard"] % 6]
+
+        def fixed(text, classes):
+            req = {"isa": "x86", "opts": [], "text": text, "classes": classes, "kernel": None, "arch": arch}
+            req["key"] = digest([arch, None, text, []])
+            return req
+
+        probe_k = "\taddq\t(%rsi,%rcx,8), %rdx\n\tcmpl\t8(%rdi), %r11d\n\tvaddpd\t(%rax), %ymm1, %ymm2\n\tvmovsd\t(%rdi,%rax,8), %xmm0\n\tvmovapd\t%ymm3, (%rdx)\n"
+        rmw_k = "\taddq\t$1, (%rax)\n\tincl\t(%rbx)\n\torq\t%rcx, (%rdx,%rsi,8)\n\tvaddpd\t(%rax), %ymm1, %ymm2\n\tvmovupd\t%ymm5, 64(%rdi,%rcx,8)\n\tsubq\t$1, 8(%rcx,%rdx,8)\n"
+        fpool = [fixed(probe_k, ["mem-src", "load", "store"]), fixed(rmw_k, ["rmw", "mem-src", "store"])]
+        check_sequence(W, fpool, [0, 1, 0, 1, 0], R)
+        R.count("typed_rows_sequences")
         # fresh runs are deterministic themselves (otherwise the comparison means nothing)
         for req in rng.sample(pool, max(1, len(pool) // 10)):
             again = cli.run_sub(W.argv(req))
